@@ -502,6 +502,28 @@ func c03Constants(r *fw.Rec) {
 		def(constant.NewBool(false))
 		def(ci(types.NewInt(7), -3))
 		def(ci(types.I128, 1<<62))
+		// integers beyond 64 bits, in every spelling the constructor accepts
+		for _, wc := range []struct {
+			w uint64
+			s string
+		}{
+			{128, "1267650600228229401496703205376"}, // 2^100
+			{128, "340282366920938463463374607431768211455"},
+			{128, "-1"}, {128, "-170141183460469231731687303715884105728"},
+			{128, "u0xFFFFFFFF00000000FFFFFFFF00000000"}, {128, "18446744073709551616"}, {128, "18446744069414584320"},
+			{65, "36893488147419103231"}, {65, "u0x10000000000000000"}, {65, "-18446744073709551616"},
+			{64, "18446744073709551615"}, {64, "9223372036854775808"}, {64, "u0x8000000000000000"}, {64, "-9223372036854775808"},
+			{256, "115792089237316195423570985008687907853269984665640564039457584007913129639935"},
+			{256, "u0x8000000000000000000000000000000000000000000000000000000000000001"},
+			{100, "633825300114114700748351602688"}, {100, "s0x8000000000000000000000000"},
+		} {
+			c, err := constant.NewIntFromString(types.NewInt(wc.w), wc.s)
+			if err != nil {
+				r.Violate(fw.Violation{Key: "constructor-error/NewIntFromString", What: fmt.Sprintf("NewIntFromString(i%d, %q): %v", wc.w, wc.s, err)})
+				continue
+			}
+			def(c)
+		}
 		def(constant.NewFloat(types.Half, 1.5))
 		def(constant.NewFloat(types.Float, -0.25))
 		def(constant.NewFloat(types.Double, 3.141592653589793))
